@@ -151,6 +151,7 @@ def finish(ctx, level="other", technique="", assumptions=None, explanation=""):
             "samples": ctx.samples[:60] or [{"note": "no discharged instance"}],
             "facts_dir": os.path.basename(ctx.prog.dir) if ctx.prog else None,
             "exhaustive": False,
+            **({"selftest": ctx.selftest} if getattr(ctx, "selftest", None) else {}),
         },
         "assumptions": assumptions or [],
         "wall_s": round(wall, 3),
@@ -159,6 +160,11 @@ def finish(ctx, level="other", technique="", assumptions=None, explanation=""):
     os.makedirs(EVID, exist_ok=True)
     with open(os.path.join(EVID, "%s.json" % ctx.pid), "w") as f:
         json.dump(ev, f, indent=1, default=str)
+    if getattr(ctx, "selftest", None):
+        sm = ctx.selftest["summary"]
+        print("[%s] selftest: seeded changes reported %d/%d, reverted repairs reported %d/%d, benign batches silent %d/%d" % (
+            ctx.pid, sm["seeded_reported"], sm["seeded_total_applicable"], sm["reverts_reported"], sm["reverts_total_applicable"],
+            sm["benign_silent"], sm["benign_total_applicable"]))
     print("[%s] tier=%s rules=%d obligations=%d discharged=%d known=%d new_violations=%d wall=%.1fs" % (
         ctx.pid, ctx.tier, len(ctx.rules), obligations, discharged, len(hit_known), len(new), wall))
     return rc
